@@ -1509,6 +1509,12 @@ impl<'a, Octs: Octets + ?Sized> MessageTsig<'a, Octs> {
                     return Err(TsigError::Invalid);
                 }
 
+                // Other data is either absent or the six octets of a time.
+                // Anything else would not be covered by the digest.
+                if !matches!(record.data().other().as_ref().len(), 0 | 6) {
+                    return Err(TsigError::Invalid);
+                }
+
                 // We got a valid TSIG, now assert that it's the last record:
                 if section.next().is_some() {
                     return Err(TsigError::Position);
